@@ -15,6 +15,7 @@ func init() {
 	register(&Prop{ID: "C12", Run: runC12,
 		Technique: "static analysis: field coverage of teardown (value-flow from Flush/Close receivers to Node fields), typestate of the one-shot teardown flag, must-pass-through of teardown on every worker exit, writer wiring value-flow, sibling agreement of Executor implementations (go/ssa)",
 		Decided: []string{
+			"the node's buffered writers are flushed / written only inside teardown (C12.single-actor-on-writers)",
 			"no flush at teardown is conditional on the result of another sink's flush/sync/close, and a flushing loop is not left on such a result (C12.flush-independent)",
 			"the step's log and redirect files are opened append-only unless new, through every function the node's set-up reaches (C12.append-only); stdout and stderr handed to the executor are one writer or share no sink (C12.wiring)",
 			"the output-capture pipe, which shares one MultiWriter with the step's log, is drained to EOF by a goroutine that never closes its read end (C11.pipe-drained, shared)",
@@ -51,6 +52,7 @@ func runC12(e *Env) {
 	if ex := e.FnQuiet(schedRel, "(*Node).Execute"); ex != nil {
 		c11Drain(e, ex) // the log shares one MultiWriter with the capture pipe: a pipe that stops being read cuts the log
 	}
+	c12SingleActor(e)
 }
 
 func nodeStruct(e *Env) (*types.Named, *types.Struct) {
